@@ -134,3 +134,19 @@ Proof.
       apply (IH s1 s o2 I1 (step_idle L c s0 e s1 o1 I J S1) Fr R2). }
   intros s o F R. eapply G; eauto. apply init_inv. intros _ _. simpl. auto.
 Qed.
+
+(** The head of the retry queue is scheduled whenever a peer is free and a fetch slot is
+    open, however full the connect queue is (the exemption from maxPendingConn: the failed
+    chunk may be exactly the one the connect queue is waiting for). *)
+Theorem retry_task_always_schedulable : forall k c s p fr t r,
+  free s = p :: fr -> (length (running s) < max_tasks c)%nat ->
+  retry s = t :: r -> (0 < t_retry t)%nat -> all_bad s = false ->
+  exists s' outs e, schedule (S k) c s = (s', OReq (p_no p) (t_hashes t) :: outs, e).
+Proof.
+  intros k c s p fr t r F R Y T B. cbn [schedule]. rewrite F.
+  destruct (Nat.leb_spec (max_tasks c) (length (running s))) as [Q|Q]; [lia|].
+  unfold search_candidate. rewrite Y.
+  destruct (Nat.eqb_spec (t_retry t) 0) as [Z|Z]; [lia|].
+  rewrite andb_false_r. rewrite B.
+  destruct (schedule k c (launch s t p fr)) as [[s5 outs] e]. eauto.
+Qed.
